@@ -313,6 +313,8 @@ def run(prog, tier):
     obs.extend(dtype_hazard_obligations(prog, "float-arithmetic", ['inference/approx/conditional.py']))
     from .common import call_order_obligations
     obs.extend(call_order_obligations(prog, "arguments-in-order", ['inference/approx/conditional.py']))
+    from .common import identity_memo_obligations
+    obs.extend(identity_memo_obligations(prog, "result-keyed-on-values", ['inference/approx/conditional.py']))
 
     meta = {
         "explanation": "Normal-form proofs: substituting trapezium_full into dh*T^2+(1-dh)*T-x gives 0 (uses sqrt(P)^2 = P); the "
